@@ -1,16 +1,23 @@
 (* Model of the colour handling of segno.writers: _color_to_rgba, _hex_to_rgb_or_rgba, _alpha_value,
    _color_to_rgb_or_rgba, _color_to_rgb, _color_is_black/_white, _make_colormap.
    Strings are lists of code points. Documented colour inputs: a str (name or hex) or a tuple of ints
-   (R, G, B) / (R, G, B, A); None where the writer allows it. *)
+   (R, G, B) / (R, G, B, A); None where the writer allows it.
+   `color.lower()` is Base/PyCase.v [py_lower]: CPython's str.lower() as far as ASCII characters are concerned (the
+   Kelvin sign U+212A lowers to 'k': 'blacK' IS black, 'darKblue' is #00008b; U+0130 lowers to 'i' + U+0307, which is
+   in no name).  The lowered string is only compared with the ASCII names of _NAME2RGB and the literals '#000', 'black',
+   ...; the hexadecimal digits are checked and read on the ORIGINAL string, as in the Python code (DESIGN.md 11.14.1). *)
 From Coq Require Import ZArith List Bool Lia.
-From Segno Require Import Base.PyLite Ref.IsoData.
+From Segno Require Import Base.PyLite Base.PyCase Ref.IsoData.
 Import ListNotations.
 Open Scope Z_scope.
 
 Definition str := list Z.
 Inductive pycolor := CStr (s : str) | CTuple (parts : list Z).
 
-Definition lower_cp (c : Z) : Z := if (65 <=? c) && (c <=? 90) then c + 32 else c.   (* str.lower() on ASCII *)
+(* ASCII-only lowering (= PyCase.ascii_lower).  NOT used for colours; kept for the comparisons with ASCII names that
+   contain no 'k' (Model/Route.v: file extensions and `kind`; Model/Helpers.v: EPC encodings), where it is
+   interchangeable with str.lower(): PyCase.py_lower_is_ascii_lower. *)
+Definition lower_cp (c : Z) : Z := if (65 <=? c) && (c <=? 90) then c + 32 else c.
 Definition lower (s : str) : str := map lower_cp s.
 Fixpoint str_eqb (a b : str) : bool :=
   match a, b with [], [] => true | x :: a', y :: b' => (x =? y) && str_eqb a' b' | _, _ => false end.
@@ -74,7 +81,7 @@ Definition color_to_rgba (color : pycolor) (alpha_float : bool) : res (list Z) :
       | _ => Err ValueError
       end
   | CStr s =>
-      match assoc_str (lower s) NAME2RGB with
+      match assoc_str (py_lower s) NAME2RGB with
       | Some (r, g, b) => Ok [r; g; b; opaque alpha_float]
       | None =>
           match hex_to_rgb_or_rgba s alpha_float with
@@ -99,13 +106,13 @@ Definition color_to_rgb (color : pycolor) : res (list Z) :=
 Definition s_of (l : list Z) : str := l.
 Definition color_is_black (color : pycolor) : bool :=
   match color with
-  | CStr s => let l := lower s in
+  | CStr s => let l := py_lower s in
               str_eqb l [35;48;48;48] || str_eqb l [35;48;48;48;48;48;48] || str_eqb l [98;108;97;99;107]
   | CTuple [0; 0; 0] | CTuple [0; 0; 0; 255] | CTuple [0; 0; 0; 1] => true
   | _ => false end.
 Definition color_is_white (color : pycolor) : bool :=
   match color with
-  | CStr s => let l := lower s in
+  | CStr s => let l := py_lower s in
               str_eqb l [35;102;102;102] || str_eqb l [35;102;102;102;102;102;102] || str_eqb l [119;104;105;116;101]
   | CTuple [255; 255; 255] | CTuple [255; 255; 255; 255] | CTuple [255; 255; 255; 1] => true
   | _ => false end.
